@@ -207,6 +207,7 @@ func main() {
 		}
 		sort.Slice(c.Res.Violations, func(i, j int) bool { return c.Res.Violations[i].Key < c.Res.Violations[j].Key })
 		unlisted := 0
+		var unconfirmed []string
 		var seenKnown []string
 		for _, v := range c.Res.Violations {
 			if f, ok := knownKeys[v.Key]; ok {
@@ -236,7 +237,10 @@ func main() {
 				// execution does not show it when run alone means the behaviour depends on what earlier requests
 				// of the same process left behind (a cache, a memo, a counter) — which is reported as such.
 				if c.Res.KeySeen[v.Key] < 3 {
-					die(2, "HARNESS-ERROR violation %s/%s did not reproduce on re-execution (nondeterminism in the harness)", ck.ID, v.Key)
+					// (decided below: a harness error if nothing else was found, a remark next to the confirmed
+					// violations otherwise)
+					unconfirmed = append(unconfirmed, v.Key)
+					continue
 				}
 				historyDependent = true
 			}
@@ -249,6 +253,12 @@ func main() {
 			if historyDependent {
 				fmt.Printf("  (reported by %d executions; the recorded one does not show it when run alone: the behaviour depends on state left by earlier requests in the same process)\n", c.Res.KeySeen[v.Key])
 			}
+		}
+		if len(unconfirmed) > 0 && unlisted == 0 {
+			die(2, "HARNESS-ERROR violation %s/%s did not reproduce on re-execution (nondeterminism in the harness)", ck.ID, unconfirmed[0])
+		}
+		for _, k := range unconfirmed {
+			fmt.Printf("UNCONFIRMED: %s was reported by one execution and did not reproduce on re-execution; not counted (the violations above did reproduce)\n", k)
 		}
 		wall := time.Since(start)
 		if *evidence != "" {
